@@ -225,6 +225,19 @@ func VerifFileFullReadOrder() {
 
 var errIO = errors.New("harness: arbitrary I/O error")
 
+// loadFailure picks the error an unavailable block is reported with: not-found, an
+// arbitrary I/O error, or the sentinel a store returns for a truncated block file
+// (which readers built on io.ReadFull are prone to mistake for the end of their input).
+func loadFailure() error {
+	switch verifrt.Choose(3) {
+	case 0:
+		return verifmodel.ErrNotFound
+	case 1:
+		return errIO
+	}
+	return io.ErrUnexpectedEOF
+}
+
 // VerifFileMissingBlock (C12, C06): with one block of the file unavailable (every
 // block in turn; not-found or arbitrary error), a sequential read returns exactly
 // the bytes that precede the missing block's span and then a non-EOF error;
@@ -243,10 +256,7 @@ func VerifFileMissingBlock() {
 		return
 	}
 	m := 1 + verifrt.Choose(len(bf.blocks)-1) // index (DFS order) of the missing block
-	injected := verifmodel.ErrNotFound
-	if verifrt.Choose(2) == 1 {
-		injected = errIO
-	}
+	injected := loadFailure()
 	miss := bf.blocks[m]
 	// with repeated chunks the missing block may sit at an earlier position too
 	for _, blk := range bf.blocks[1:m] {
@@ -311,10 +321,14 @@ func VerifFileKthLoadFails() {
 	bf.st.Loads = nil
 	kth := verifrt.IntRange(0, len(bf.blocks)-2)
 	failedKey := ""
+	kthErr := errIO
+	if verifrt.Choose(2) == 1 {
+		kthErr = io.ErrUnexpectedEOF
+	}
 	bf.st.FailLoad = func(key string, nth int) error {
 		if nth == kth {
 			failedKey = key
-			return errIO
+			return kthErr
 		}
 		return nil
 	}
@@ -349,7 +363,7 @@ func VerifFileKthLoadFails() {
 		verifrt.Reach("end")
 		return
 	}
-	verifrt.Assert(errors.Is(rerr, errIO), "fault:load-error-reported")
+	verifrt.Assert(errors.Is(rerr, kthErr), "fault:load-error-reported")
 	if a > 0 {
 		verifrt.Reach("end")
 		return
@@ -368,8 +382,8 @@ func VerifHandBuiltReadOrder() {
 	next := byte('a')
 	var order []string // expected first-request order below the root
 	rawLink := func() (pbLinkSpec, uint64) {
-		c := []byte{next}
-		next++
+		c := []byte{next, next + 1}
+		next += 2
 		l := storeRaw(ls, c)
 		if verifrt.Choose(2) == 1 {
 			// a leaf under an identity-multihash CID ("inlined" block, as `ipfs add --inline`
@@ -382,12 +396,16 @@ func VerifHandBuiltReadOrder() {
 		s := pbLinkSpec{hash: l, hasName: true, name: ""}
 		// (a raw link without any Tsize is refused by the reader with an error — legal
 		// for every property, and no reference writer omits it — so it is not generated)
-		s.hasTsize, s.tsize = true, 1
-		if verifrt.Choose(2) == 1 {
-			s.tsize = 2
+		s.hasTsize, s.tsize = true, 2
+		switch verifrt.Choose(3) {
+		case 1:
+			s.tsize = 3 // overstated
+			verifrt.Reach("skewed-tsize")
+		case 2:
+			s.tsize = 1 // understated (but not zero)
 			verifrt.Reach("skewed-tsize")
 		}
-		return s, 1
+		return s, 2
 	}
 	fileNode := func(links []pbLinkSpec, sizes []uint64) datamodel.Link {
 		var total uint64
@@ -421,7 +439,7 @@ func VerifHandBuiltReadOrder() {
 		}
 		a := fileNode(il, is)
 		rootLinks = append(rootLinks, pbLinkSpec{hash: a, hasName: true, name: "", hasTsize: true, tsize: 40})
-		rootSizes = append(rootSizes, 2)
+		rootSizes = append(rootSizes, 4)
 		order = append(append(order, a.Binary()), keys...)
 		l, n := rawLink()
 		rootLinks, rootSizes = append(rootLinks, l), append(rootSizes, n)
@@ -437,7 +455,7 @@ func VerifHandBuiltReadOrder() {
 		node, err := unixfsnode.Reify(ipld.LinkContext{}, root, ls)
 		verifrt.Assert(err == nil, "reify-ok")
 		all, err := node.AsBytes()
-		verifrt.Assert(err == nil && len(all) == want, "full-read")
+		verifrt.Assert(err == nil && len(all) == 2*want, "full-read")
 	} else {
 		node, err := ls.KnownReifiers["unixfs-preload"](ipld.LinkContext{}, root, ls)
 		verifrt.Assert(err == nil && node != nil, "preload-ok")
